@@ -810,3 +810,149 @@ example : check exMods [exClass] lower true "3 ms".toList = [] := by decide
 example : (unitsPortion [] [exCurrency] lower "$ 100".toList).isSome = true := by decide
 example : (unitsPortion exMods [exClass] lower "ms 3".toList).isSome = false := by decide
 end HedVerif.C11
+
+namespace HedVerif.Units
+
+/-! ### numeric literals: the semantics of the grammar `[+-]?(\d+(\.\d*)?|\.\d+)([eE][+-]?\d+)?` (place value),
+for every digit string — the correspondence samples literals, these theorems cover all of them -/
+
+def AllDigits (s : Str) : Prop := ∀ c ∈ s, isDigit c = true
+
+/-- the head of `r` (if any) is not a digit -/
+def StopsDigits (r : Str) : Prop := ∀ c, r.head? = some c → isDigit c = false
+
+theorem foldl_digits (b : Str) (n : Nat) :
+    b.foldl (fun acc c => acc * 10 + (c.toNat - '0'.toNat)) n = n * 10 ^ b.length + digitsVal b := by
+  induction b generalizing n with
+  | nil => simp [digitsVal]
+  | cons c b ih =>
+    simp only [List.foldl_cons, List.length_cons, digitsVal]
+    rw [ih, ih (0 * 10 + _)]
+    simp [Nat.pow_succ]; grind
+
+/-- **Place value:** the value of a digit string is positional. -/
+theorem digitsVal_append (a b : Str) : digitsVal (a ++ b) = digitsVal a * 10 ^ b.length + digitsVal b := by
+  unfold digitsVal
+  rw [List.foldl_append, foldl_digits]; rfl
+
+theorem takeDigits_append (ds r : Str) (hd : AllDigits ds) (hr : StopsDigits r) :
+    takeDigits (ds ++ r) = (ds, r) := by
+  induction ds with
+  | nil =>
+    cases r with
+    | nil => rfl
+    | cons c r => have := hr c rfl; simp [takeDigits, this]
+  | cons d ds ih =>
+    have hd' : isDigit d = true := hd d (by simp)
+    have := ih (fun c hc => hd c (by simp [hc]))
+    simp only [takeDigits, Prod.mk.injEq] at this
+    simp [takeDigits, hd', this.1, this.2]
+
+theorem stops_nil : StopsDigits [] := by intro c h; simp at h
+theorem stops_dot (r : Str) : StopsDigits ('.' :: r) := by intro c h; simp at h; subst h; decide
+
+theorem digit_not_sign (d : Char) (h : isDigit d = true) : d ≠ '+' ∧ d ≠ '-' := by
+  refine ⟨?_, ?_⟩ <;> (intro e; subst e; revert h; decide)
+
+theorem splitSign_plain (d : Char) (ds : Str) (h1 : d ≠ '+') (h2 : d ≠ '-') :
+    splitSign (d :: ds) = (false, d :: ds) := by
+  unfold splitSign
+  split
+  · rename_i heq; simp at heq; exact absurd heq.1 h1
+  · rename_i heq; simp at heq; exact absurd heq.1 h2
+  · rfl
+
+/-- **An unsigned integer literal denotes its place value.** -/
+theorem parse_integer (d : Char) (ds : Str) (hd : AllDigits (d :: ds)) :
+    parseNumber (d :: ds) = some ⟨digitsVal (d :: ds), 0⟩ := by
+  obtain ⟨h1, h2⟩ := digit_not_sign d (hd d (by simp))
+  have ht := takeDigits_append (d :: ds) [] hd stops_nil
+  simp only [List.append_nil] at ht
+  simp [parseNumber, mantOf, finishNumber, expOf, splitSign_plain d ds h1 h2, ht]
+
+/-- **A decimal literal `ip.fp` denotes `digits(ip fp) · 10^(-|fp|)`.** -/
+theorem parse_decimal (d : Char) (ds fp : Str) (hd : AllDigits (d :: ds)) (hf : AllDigits fp) :
+    parseNumber (d :: ds ++ '.' :: fp) = some ⟨digitsVal (d :: ds ++ fp), -(fp.length : Int)⟩ := by
+  obtain ⟨h1, h2⟩ := digit_not_sign d (hd d (by simp))
+  have ht := takeDigits_append (d :: ds) ('.' :: fp) hd (stops_dot fp)
+  have ht2 := takeDigits_append fp [] hf stops_nil
+  simp only [List.append_nil] at ht2
+  simp only [List.cons_append] at ht ⊢
+  simp [parseNumber, mantOf, finishNumber, expOf, splitSign_plain d _ h1 h2, ht, ht2]
+
+/-- **A bare fraction `.fp` denotes `digits(fp) · 10^(-|fp|)`; a lone `.` is not a number.** -/
+theorem parse_fraction (f : Char) (fp : Str) (hf : AllDigits (f :: fp)) :
+    parseNumber ('.' :: f :: fp) = some ⟨digitsVal (f :: fp), -((f :: fp).length : Int)⟩ ∧
+    parseNumber ['.'] = none := by
+  have ht2 := takeDigits_append (f :: fp) [] hf stops_nil
+  simp only [List.append_nil] at ht2
+  have h0 : takeDigits ('.' :: f :: fp) = ([], '.' :: f :: fp) := by
+    simpa using takeDigits_append [] ('.' :: f :: fp) (by intro c hc; simp at hc) (stops_dot _)
+  have hs : splitSign ('.' :: f :: fp) = (false, '.' :: f :: fp) := splitSign_plain _ _ (by decide) (by decide)
+  refine ⟨?_, by decide⟩
+  simp [parseNumber, mantOf, finishNumber, expOf, hs, h0, ht2]
+
+/-- the exponent `e±ed` adds `±value(ed)` to the decimal exponent -/
+theorem expOf_digits (c : Char) (hc : c = 'e' ∨ c = 'E') (g : Char) (gs : Str) (hg : AllDigits (g :: gs)) :
+    expOf (c :: g :: gs) = some (digitsVal (g :: gs) : Int) ∧
+    expOf (c :: '+' :: g :: gs) = some (digitsVal (g :: gs) : Int) ∧
+    expOf (c :: '-' :: g :: gs) = some (-(digitsVal (g :: gs) : Int)) := by
+  obtain ⟨h1, h2⟩ := digit_not_sign g (hg g (by simp))
+  have ht := takeDigits_append (g :: gs) [] hg stops_nil
+  simp only [List.append_nil] at ht
+  have hp : splitSign ('+' :: g :: gs) = (false, g :: gs) := rfl
+  have hm : splitSign ('-' :: g :: gs) = (true, g :: gs) := rfl
+  rcases hc with rfl | rfl <;> simp [expOf, splitSign_plain g gs h1 h2, hp, hm, ht]
+
+/-- **Scientific notation:** `ip.fp e±ed` denotes `digits(ip fp) · 10^(−|fp| ± value(ed))`. -/
+theorem parse_scientific (d : Char) (ds fp : Str) (hd : AllDigits (d :: ds)) (hf : AllDigits fp)
+    (c : Char) (hc : c = 'e' ∨ c = 'E') (rest : Str) (ev : Int) (he : expOf (c :: rest) = some ev) :
+    parseNumber (d :: ds ++ '.' :: fp ++ c :: rest) =
+      some ⟨digitsVal (d :: ds ++ fp), -(fp.length : Int) + ev⟩ := by
+  obtain ⟨h1, h2⟩ := digit_not_sign d (hd d (by simp))
+  have hcs : StopsDigits (c :: rest) := by
+    intro x hx; simp at hx; subst hx; rcases hc with rfl | rfl <;> decide
+  have ht := takeDigits_append (d :: ds) ('.' :: fp ++ c :: rest) hd (stops_dot _)
+  have ht2 := takeDigits_append fp (c :: rest) hf hcs
+  simp only [List.cons_append, List.append_assoc] at ht ⊢
+  simp [parseNumber, mantOf, finishNumber, splitSign_plain d _ h1 h2, ht, ht2, he]
+
+theorem finish_neg (mant : Option (Str × Str × Str)) :
+    finishNumber true mant = (finishNumber false mant).map (fun x => ⟨-x.m, x.e⟩) := by
+  cases mant with
+  | none => rfl
+  | some t =>
+    obtain ⟨ip, fp, rest⟩ := t
+    simp only [finishNumber]
+    cases expOf rest <;> simp
+
+/-- **A leading `-` negates the mantissa and nothing else; a leading `+` changes nothing.** -/
+theorem parse_sign (d : Char) (s : Str) (h1 : d ≠ '+') (h2 : d ≠ '-') :
+    parseNumber ('-' :: d :: s) = (parseNumber (d :: s)).map (fun x => ⟨-x.m, x.e⟩) ∧
+    parseNumber ('+' :: d :: s) = parseNumber (d :: s) := by
+  have hm : splitSign ('-' :: d :: s) = (true, d :: s) := rfl
+  have hp : splitSign ('+' :: d :: s) = (false, d :: s) := rfl
+  simp only [parseNumber, hm, hp, splitSign_plain d s h1 h2, finish_neg, and_self]
+
+/-- a doubled sign is never a number -/
+theorem parse_double_sign (a b : Char) (ha : a = '+' ∨ a = '-') (hb : b = '+' ∨ b = '-') (s : Str) :
+    parseNumber (a :: b :: s) = none := by
+  have hb' : isDigit b = false := by rcases hb with rfl | rfl <;> decide
+  have hbd : b ≠ '.' := by rcases hb with rfl | rfl <;> decide
+  have ht : takeDigits (b :: s) = ([], b :: s) := by simp [takeDigits, hb']
+  have hs : ∃ n, splitSign (a :: b :: s) = (n, b :: s) := by
+    rcases ha with rfl | rfl
+    · exact ⟨false, rfl⟩
+    · exact ⟨true, rfl⟩
+  obtain ⟨n, hn⟩ := hs
+  simp only [parseNumber, hn, mantOf, ht]
+  simp only [List.isEmpty_nil, Bool.not_true, Bool.false_eq_true, ↓reduceIte]
+  split
+  · rename_i heq; simp at heq; exact absurd heq.1 hbd
+  · rfl
+
+example : parseNumber "12.50".toList = some ⟨1250, -2⟩ := by decide
+example : parseNumber "-12.50e-1".toList = some ⟨-1250, -3⟩ := by decide
+example : AllDigits ['1','2'] ∧ AllDigits ['5','0'] := by
+  constructor <;> (intro c hc; simp at hc; rcases hc with rfl | rfl <;> decide)
+end HedVerif.Units
